@@ -1,7 +1,7 @@
 """C09 — Iterative queries terminate with bounded parallelism."""
 import re
 
-from analysis import (Prov, Guards, fmt, fmt_short, walk, roots, short, comparison, find_calls, callee_matches,
+from analysis import (mirror, Prov, Guards, fmt, fmt_short, walk, roots, short, comparison, find_calls, callee_matches,
                       must_pass, named_switches, normalised_cmp, cmp_intervals, const_int_of)
 from facts import AnchorError, strip_closure
 from harness import Rule, guarded
@@ -108,6 +108,8 @@ def r2(ctx, tables):
             if kind == "rv" and len(arm) == 1:
                 e = p.rvalue(payload, blk)
                 c = comparison(e)
+                if c and fmt_short(c[2]) == "self.num_waiting":
+                    c = mirror(c)          # `bound <= num_waiting` is the same test
                 if c:
                     res[arm[0]] = (c[0], fmt_short(c[1]), fmt_short(c[2]))
                 elif const_int_of(e) is not None:
